@@ -46,8 +46,14 @@ def _eval_all(ctx, obj, R, fixedvals, free, sig, case, rnd):
     """evaluate obj at two completions in every admissible way; compare with the oracle of the original factors"""
     from cuqiverif import jointgraphs as jg
     import cuqi
-    for k in (1, 2):
+    # the arrays handed to the object are the SAME objects in both evaluations, modified in place in between
+    # (as samplers do with their state vectors): nothing may be remembered across evaluations by object identity
+    buffers = {v: np.array(R.completion(1)[v], dtype=float, copy=True) for v in free}
+    for k in (1, 2, 1):
         vals = R.completion(k)
+        for v in free:
+            buffers[v][...] = vals[v]
+        vals = {v: (buffers[v] if v in buffers else x) for v, x in vals.items()}
         vals.update(fixedvals)
         exp = R.total(vals)
         kw = {jg.name(v): vals[v] for v in free}
